@@ -25,6 +25,8 @@ def scenarios(ctx, tier):
     add("sf-into-child", T, [c("d", ["md5"]), c("", ["md5"])], c("", ["md5"], sf=["d/b.txt"]))
     add("sf-no-history", T, [], c("", ["md5"], sf=["a.txt"]))
     add("child-only-first-generation", T, [], c("d", ["md5"]))
+    # a long history: the chain file is several kilobytes (one more block on disk), generation numbers have two digits
+    add("flat-30-prior", T, [c("", ["md5"])] * 30, c("", ["md5"]))
     if tier == "thorough":
         add("nested-3-levels", T3, [c("d/e", ["sha1"]), c("d", ["md5"]), c("", ["md5"])], c("", ["md5"]))
         add("nested-3-levels-all-new-parents", T3, [c("d/e", ["sha1"])], c("", ["xxh64"]))
